@@ -22,6 +22,7 @@ import (
 	"os"
 	"strings"
 	"sync"
+	"testing/synctest"
 	"time"
 
 	"github.com/gin-gonic/gin"
@@ -761,7 +762,7 @@ func (x *sbrEngine) drain() {
 			return
 		}
 	}
-	if !e.settle() {
+	if !x.settleDrain() {
 		e.mu.Lock()
 		e.logf("drain: could not reach a quiescent state")
 		e.mu.Unlock()
@@ -776,7 +777,7 @@ func (x *sbrEngine) drain() {
 		e.settle()
 	}
 	time.Sleep(time.Second)
-	if !e.settle() {
+	if !x.settleDrain() {
 		e.drainIncomplete = true
 		return
 	}
@@ -806,6 +807,24 @@ func (x *sbrEngine) drain() {
 	} else if len(ps.Models) != 0 {
 		e.violate("C02", "GET /api/ps still lists %d model(s) (%s ...) after all requests finished and all keep-alives elapsed", len(ps.Models), ps.Models[0].Name)
 	}
+}
+
+// settleDrain: sbEngine.settle never waits for quiescence while an unload call is being served, because expireRunner
+// may wait on the mutex of a runner whose gated load is undecided. In the drain no load is undecided any more (new
+// loads succeed at birth), so that wait is momentary and quiescence can be awaited: an unload call that is then still
+// unanswered is parked for good and is reported by the end-state oracle instead of making the drain "incomplete".
+func (x *sbrEngine) settleDrain() bool {
+	e := x.e
+	if e.settle() {
+		return true
+	}
+	if !e.canHard() {
+		return false
+	}
+	synctest.Wait()
+	e.hards++
+	sbProgress.Add(1)
+	return true
 }
 
 func sbrGinSetup(ew io.Writer) {
